@@ -289,7 +289,7 @@ CheckInvoke(s, e) ==
   ELSE IF pd.serr # "" THEN "SetupFailExpected"
   ELSE IF pd.lk.valid /\ ~pd.lk.fuzzy /\ ~(pd.lk.kfHidden /\ "KF-hidden-foreign-target" \in OpenKF)
     THEN "ExecOnlyIfJustified"
-  ELSE IF ~(e.recv = San(pd.args) /\ e.recvkw = San(pd.kw)) THEN "ArgsRoundTripped"
+  ELSE IF ~(TEq(e.recv, San(pd.args)) /\ TEq(e.recvkw, San(pd.kw))) THEN "ArgsRoundTripped"
   ELSE IF pd.kind = "bf" /\ ~e.path_ok THEN "PathNormalised"
   ELSE ""
 
@@ -306,9 +306,10 @@ CheckEnd(s, e) ==
       IF pd.serr = "RuntimeError" THEN "DuplicateRejected"
       ELSE IF pd.serr # "" THEN "SetupFailExpected"
       ELSE IF ~(pd.lk.found /\ (pd.lk.valid \/ pd.lk.fuzzy)) THEN "ReuseOnlyIfValid"
-      ELSE IF e.ret # pd.lk.r.ret THEN "PersistedEqualsReturned"
+      ELSE IF ~TEq(e.ret, pd.lk.r.ret) THEN "PersistedEqualsReturned"
       ELSE IF pd.kind = "bf" /\ e.real # "file" THEN "TargetFileAfterOk"
       ELSE ""
+    ELSE IF e.fault THEN ""      \* an injected OS error surfaced from the call in progress (C14)
     ELSE
       IF pd.serr = "" THEN "NoSpuriousException"
       ELSE IF e.err # pd.serr THEN "SetupErrClass"
@@ -324,7 +325,7 @@ CheckEnd(s, e) ==
     ELSE IF ~e.inv THEN "H:inv-flag"
     ELSE IF (e.out = "ok") # okExp THEN "OutcomeMatches"
     ELSE IF e.out = "ok" THEN
-      IF e.ret # San(fr.fin.v) THEN "ReturnMatches"
+      IF ~TEq(e.ret, San(fr.fin.v)) THEN "ReturnMatches"
       ELSE IF fr.kind = "bf" /\ e.real # "file" THEN "TargetFileAfterOk"
       ELSE ""
     ELSE
@@ -340,7 +341,8 @@ CheckEnd(s, e) ==
 FinalView(s) == SView(s)
 (* All clauses that the end of a build violates (a set, so that each property *)
 (* can recognise its own clause even when another one fails first).           *)
-BuildEndOrder == <<"NoSpuriousException", "ExceptionPropagates", "ExcIdentity",
+BuildEndOrder == <<"NoSpuriousException", "FaultSurfaces", "CacheReplacedOnlyOnSuccess",
+                   "ExceptionPropagates", "ExcIdentity",
                    "ExceptionClassMatches", "ReturnMatches", "ForeignUntouched",
                    "OutputsNotRewritten", "FinalTreeMatches", "RollbackRestores", "CacheWritten",
                    "TempDirRemoved">>
@@ -351,9 +353,14 @@ BuildEndFails(s, e) ==
       fr == s.stack[1]
       C(cond, name) == IF cond THEN {} ELSE {name}
   IN
-  IF fr.fin.out = "return" THEN
+  IF fr.fin.out = "return" /\ e.fault THEN
+    \* the root function succeeded but writing the cache failed: roll back (C14, C16)
+    IF e.out # "raised" THEN {"FaultSurfaces"}
+    ELSE C(RollbackOK(s.pre, d, s.rec.cdirs), "CacheReplacedOnlyOnSuccess")
+         \cup C(e.tmp, "TempDirRemoved")
+  ELSE IF fr.fin.out = "return" THEN
     IF e.out # "returned" THEN {"NoSpuriousException"}
-    ELSE C(e.v = fr.fin.v, "ReturnMatches")
+    ELSE C(TEq(e.v, fr.fin.v), "ReturnMatches")
          \cup C(ForeignUntouched(s, d), "ForeignUntouched")
          \cup C(OutputsNotRewritten(s, d), "OutputsNotRewritten")
          \cup C(Remove(d, {CachePath}) = FinalView(s), "FinalTreeMatches")
@@ -376,6 +383,11 @@ CheckBuildEnd(s, e) ==
       ELSE IF d # s.disk THEN "RefusalNoEffect"
       ELSE IF ~e.tmp THEN "RefusalNoEffect"
       ELSE ""
+    ELSE IF e.fault THEN     \* an injected fault before the root function ran: like a refusal
+      IF e.out # "raised" THEN "FaultSurfaces"
+      ELSE IF ~RollbackOK(s.disk, d, s.rec.cdirs) THEN "FaultLeavesConsistent"
+      ELSE IF ~e.tmp THEN "TempDirRemoved"
+      ELSE ""
     ELSE "NoSpuriousException"
   ELSE IF ~(s.ph = "build" /\ Len(s.stack) = 1 /\ ~s.pend.on /\ s.stack[1].fin.out # "")
     THEN "H:build-end-in-frame"
@@ -386,16 +398,17 @@ CheckClean(s, e) ==
   LET d == FsOf(e.disk)
       a == FsOf(e.after)
       cs == CacheState(d, s.rec, e.cser)
-      refuse == cs \in {"dir", "bad"} \/ (cs = "valid" /\ ~e.noname /\ s.rec.name # e.name)
+      refuse == e.bad \/ cs \in {"dir", "bad"} \/ (cs = "valid" /\ ~e.noname /\ s.rec.name # e.name)
   IN
   IF s.ph # "idle" THEN "H:clean-while-building"
-  ELSE IF cs = "none" THEN
+  ELSE IF cs = "none" /\ ~e.bad THEN
     IF e.out # "ok" THEN "NoSpuriousException"
     ELSE IF a # d THEN "CleanNoCacheNoEffect"
     ELSE ""
   ELSE IF refuse THEN
     IF e.out # "raised" THEN "RefusalExpected"
     ELSE IF a # d THEN "RefusalNoEffect"
+    ELSE IF ~e.tmp THEN "RefusalNoEffect"
     ELSE ""
   ELSE
     IF e.out # "ok" THEN "NoSpuriousException"
@@ -442,7 +455,7 @@ ApplyBuild(s, e) ==
   LET d == FsOf(e.disk)
       cs == CacheState(d, s.rec, e.cser)
       rec == IF cs = "valid" THEN s.rec ELSE NoRec
-      refuse == cs \in {"dir", "bad"} \/ (cs = "valid" /\ s.rec.name # e.name)
+      refuse == e.bad \/ cs \in {"dir", "bad"} \/ (cs = "valid" /\ s.rec.name # e.name)
   IN [s EXCEPT !.ph = "start", !.disk = d, !.rec = IF refuse THEN s.rec ELSE rec,
                !.refuse = refuse, !.vers = San(e.vers), !.name = e.name]
 
@@ -532,7 +545,7 @@ ApplyBuildEnd(s, e) ==
   IF s.ph = "start" THEN [s EXCEPT !.ph = "idle", !.disk = d, !.st.refuse = @ + 1]
   ELSE
     LET fr == s.stack[1] IN
-    IF fr.fin.out = "return" THEN
+    IF fr.fin.out = "return" /\ e.out = "returned" THEN
       LET fv == FinalView(s)
           nrec == [valid |-> TRUE, name |-> s.name, vers |-> s.vers, tree |-> fr.subs,
                    outs |-> RecOuts(fr.subs), cdirs |-> Dirs(fv) \ s.v0dirs, ser |-> e.cser]
